@@ -117,6 +117,10 @@ def _run(pm: ProgramModel, ctx: Ctx, mb: ModelBuilder, cd: Codec) -> None:
         values[f"list-in-list-of-one:{sk}"] = [[sv]]
         values[f"map-with-list-of-one:{sk}"] = {"k": [sv], "z": 1}
     values["list-of-lists"] = [[1, 2], [3]]
+    # numbers at the edges of what a text carries exactly
+    values.update({"float-17-digits": 0.30000000000000004, "float-third": 1 / 3, "float-next-after-one": 1.0000000000000002,
+                   "int-beyond-2**53": 9007199254740993, "int-20-digits": 12345678901234567890, "negative-float": -0.5})
+    # (floats that Python prints with an exponent - 1e+22, 1.5e-07 - are outside the property's "plain-decimal float")
     values["map-with-key-abstract"] = {"abstract": None, "level": 2}
     values["map-with-key-abstract-true"] = {"kind": {"abstract": True}, "z": 1}
     values["list-of-maps-with-key-abstract"] = [{"abstract": None}, {"k": 1}]
